@@ -37,6 +37,11 @@ class BoxPrior:
         x = np.asarray(x)
         return np.zeros_like(x, dtype=float)
 
+    def rvs(self, size=None, random_state=None):
+        rs = random_state or np.random
+        u = rs.uniform(size=(size or 1, len(self.b)))
+        return self.b[:, 0] + u * (self.b[:, 1] - self.b[:, 0])
+
 
 def unbits(n):
     return struct.unpack('<d', struct.pack('<Q', n))[0]
@@ -96,8 +101,13 @@ def check(ctx):
                 continue
             # sampling phase: the accelerated single-point path vs GPy
             gp.is_sampling = True
-            thr = float(np.quantile(yall, rng.choice([0.05, 0.2, 0.5])))
+            thr = float(np.quantile(yall, rng.choice([0.05, 0.2, 0.5]))) if rng.random() < .75 else rng.choice([0.0, 0.0, -0.25])
+            ctx.count('threshold', 'zero' if thr == 0 else ('negative' if thr < 0 else 'quantile'))
             post = BolfiPosterior(gp, threshold=thr, prior=BoxPrior(bounds))
+            if post.threshold != thr:
+                ctx.fail_input(dict(case, at=ph, threshold=thr), 'the posterior was requested with threshold %r but uses %r' % (thr, float(post.threshold)), thr, float(post.threshold))
+                bad = True
+                break
             for q in range(6):
                 x = np.array([rng.uniform(lo, hi) for lo, hi in bounds])
                 try:
